@@ -25,6 +25,16 @@ CleanerAcquireSeq == <<
     O("open", "context", "none"), O("open", "owner_lock", "none"), O("open", "state", "none"),
     O("getlk", "state", "none"), O("lock", "owner_lock", "none") >>
 
+\* refusal tails, one per step of CleanerAcquireSeq (the getlk step cannot fail in the pinned code: its tail is
+\* the one of the lock step without the fstat)
+CleanerRefuseSeq == <<
+    << >>,
+    << O("close", "context", "none") >>,
+    << O("close", "owner_lock", "none"), O("close", "context", "none") >>,
+    << O("close", "state", "none"), O("close", "owner_lock", "none"), O("close", "context", "none") >>,
+    << O("fstat", "owner_lock", "none"), O("close", "state", "none"), O("close", "owner_lock", "none"),
+       O("close", "context", "none") >> >>
+
 NodeMapVal == [Alive |-> "Alive", Dead |-> "Dead", CleaningUp |-> "Dead", DoesNotExist |-> "DoesNotExist",
                Starting |-> "DoesNotExist", Err |-> "Undefined"]
 
